@@ -11,6 +11,7 @@ Oracle, after every call: flagged valid => the bytes at its extent hash to the t
 chunk for which the source index has no entry with equal (digest, stored size, size) is not touched; a matched pair
 has equal (un)compressed digest and equal length.
 """
+PROMOTE = True   # quick runs the former thorough bound (seconds); thorough goes deeper where a deeper bound is defined (ctx.deep)
 import itertools
 import core, zckref, universe
 from universe import Cfg
